@@ -657,6 +657,36 @@ pub fn c05(out: &mut dyn Write, tier: &str, rng: &mut Rng, st: &mut Stats) {
         st.hit(&format!("cntcmp.{}.{}x{}", op, la, lb));
         st.hit(if r.is_const() { "result.const" } else { "result.choice" });
     }
+    // long lists (16 to 20 operands, beyond any fixed-size shortcut): constants, literals and small functions of
+    // three variables, so that every assignment can still be tried
+    let nlong = if thorough { 600 } else { 36 };
+    for i in 0..nlong {
+        let len = [16usize, 17, 17, 18, 19, 20][i % 6];
+        let vars = [0usize, 1, 2];
+        let mut bs: Vec<B> = (0..len).map(|j| match rng.below(8) {
+            0 | 1 | 2 => from_tt(1, &[]),
+            3 => from_tt(0, &[]),
+            4 | 5 => from_tt(2, &[vars[j % 3]]),
+            6 => from_tt(1, &[vars[j % 3]]),
+            _ => from_tt(rng.below(256), &vars),
+        }).collect();
+        // sometimes every operand of the first half, or of the whole list, is the constant true
+        if i % 4 == 1 { for b in bs.iter_mut().take(len / 2) { *b = from_tt(1, &[]); } }
+        if i % 8 == 3 { for b in bs.iter_mut().take(len - 1) { *b = from_tt(1, &[]); } }
+        let bound: i64 = match rng.below(6) { 0 => len as i64, 1 => len as i64 - 1, 2 => len as i64 + 1, 3 => (len / 2) as i64, _ => rng.range(0, len as i64 + 2) };
+        if i % 3 != 2 {
+            let op = *rng.pick(&["aln", "amn", "exn"]);
+            let r = match op { "aln" => env.aln(&bs, bound), "amn" => env.amn(&bs, bound), _ => env.exn(&bs, bound) };
+            writeln!(out, "C05|cnt|{}|{}|{}|{}", op, bound, show_list(&bs), show(&r)).unwrap();
+            st.hit(&format!("cnt.long.{}.len{}", op, len));
+        } else {
+            let a: Vec<B> = (0..rng.below(4) as usize).map(|_| operand(rng)).collect();
+            let op = *rng.pick(&["leq", "lt", "geq", "gt", "eq"]);
+            let r = cntcmp(&env, op, &a, &bs);
+            writeln!(out, "C05|cntcmp|{}|{}|{}|{}", op, show_list(&a), show_list(&bs), show(&r)).unwrap();
+            st.hit(&format!("cntcmp.long.{}.{}x{}", op, a.len(), len));
+        }
+    }
     // the two lists drawn from one small pool of operands, with repetitions: equal as sets, permutations of
     // each other, or differing only in how often an operand occurs
     for i in 0..n / 4 {
@@ -717,8 +747,48 @@ fn unary_functions(tier: &str, rng: &mut Rng) -> Vec<B> {
     fs
 }
 
+/// functions of many variables with small diagrams: 60 to 130 guard literals (either polarity) in a chain of
+/// conjunctions or disjunctions around a small function of a few further variables, placed before, after or in
+/// the middle of the chain — paths of more than 64 tests, variable ids beyond 64, depths beyond any machine word
+pub fn deep_functions(tier: &str, rng: &mut Rng) -> Vec<B> {
+    let env: BDDEnv<usize> = BDDEnv::new();
+    let mut fs: Vec<B> = Vec::new();
+    let lens: [usize; 12] = [60, 62, 63, 64, 65, 66, 67, 70, 96, 127, 128, 130];
+    let n = if tier == "thorough" { 1200 } else { 72 };
+    for i in 0..n {
+        let k = lens[i % lens.len()];
+        let place = (i / lens.len()) % 3; // small function after / before / in the middle of the guards
+        let base = match place { 0 => 0usize, 1 => 3, _ => 0 };
+        let small_at = match place { 0 => k, 1 => 0, _ => k / 2 };
+        let guard_id = |j: usize| -> usize { if place == 2 && j >= k / 2 { j + 3 } else { base + j } };
+        let tail_vars = [small_at, small_at + 1, small_at + 2];
+        let tail = from_tt(1 + rng.below(254), &tail_vars);
+        let conj = rng.chance(2, 3);
+        let mut acc: B = tail;
+        // guards are added from the last to the first, so that every intermediate diagram stays a chain
+        let mut ids: Vec<usize> = (0..k).map(guard_id).collect();
+        ids.reverse();
+        for id in ids {
+            let lit = if rng.chance(3, 4) { env.var(id) } else { env.not(env.var(id)) };
+            acc = if conj { env.and(lit, acc) } else { env.or(lit, acc) };
+        }
+        fs.push(acc);
+    }
+    fs
+}
+
 pub fn c07(out: &mut dyn Write, tier: &str, rng: &mut Rng, st: &mut Stats) {
     let env: BDDEnv<usize> = BDDEnv::new();
+    for f in deep_functions(tier, rng) {
+        let r = env.model(Rc::clone(&f));
+        writeln!(out, "C07|model|{}|{}", show(&f), show(&r)).unwrap();
+        st.hit(if r.is_false() { "deep.model.false" } else { "deep.model.cube" });
+        for v in [0usize, 63, 64, 65, 200] {
+            let (a, b) = env.infer(Rc::clone(&r), v);
+            writeln!(out, "C07|infer|{}|{}|{}{}", show(&r), v, a as u8, b as u8).unwrap();
+            st.hit("deep.infer");
+        }
+    }
     for (i, f) in unary_functions(tier, rng).into_iter().enumerate() {
         // every other operand is the environment's own shared node instead of a plain value
         let f = if i % 2 == 1 { crate::env::intern(&env, &f) } else { f };
@@ -760,6 +830,13 @@ pub fn c07_raw(out: &mut dyn Write, tier: &str, rng: &mut Rng, st: &mut Stats) {
 
 pub fn c20(out: &mut dyn Write, tier: &str, rng: &mut Rng, st: &mut Stats) {
     let env: BDDEnv<usize> = BDDEnv::new();
+    for f in deep_functions(tier, rng) {
+        for flt in [TruthTableEntry::True, TruthTableEntry::False, TruthTableEntry::Any] {
+            let r = env.retain_choice_bottom_up(Rc::clone(&f), flt);
+            writeln!(out, "C20|retain|{}|{}|{}", flt_name(flt), show(&f), show(&r)).unwrap();
+            st.hit(&format!("deep.retain.{}.{}", flt_name(flt), if r == f { "unchanged" } else { "changed" }));
+        }
+    }
     for (i, f) in unary_functions(tier, rng).into_iter().enumerate() {
         let f = if i % 2 == 1 { crate::env::intern(&env, &f) } else { f };
         for flt in [TruthTableEntry::True, TruthTableEntry::False, TruthTableEntry::Any] {
